@@ -446,7 +446,7 @@ class Check:
         self.gen_tier = self.tier
         touched = self.escalation()
         if touched and self.tier == "quick" and not os.environ.get("VERIF_NO_ESCALATE"):
-            self.gen_tier = "thorough"
+            self.gen_tier = getattr(P, "ESCALATED_TIER", "thorough")
             self.extra["escalated"] = "sources differ from the validated tree in the property's packages (%s): scenarios generated as in the thorough tier" % ", ".join(touched[:8])
         race = self.tier == "thorough" and getattr(P, "RACE", False)
         ok = self.build_harness(race=race)
